@@ -390,6 +390,26 @@ class CallMixin:
                 start = kwargs.get("start", args[1] if len(args) > 1 else Num(0))
                 return ListV("fam", idx=idx, lo=Rat.const(0), hi=n, elem=TupV([Num(Rat.atom(idx) + start.r), elems[0]]))
             return ListV("fam", idx=idx, lo=Rat.const(0), hi=n, elem=TupV(elems))
+        if d in ("record._replace", "record._asdict"):
+            cur = {f.name: self.obj_attr(self_val, f.name, frame, node) for f in self_val.cls.fields}
+            if d.endswith("_asdict"):
+                return DictV(cur)
+            cur.update(kwargs)
+            return self.construct(self_val.cls, [], cur, frame, node)
+        if d in ("builtins.all", "builtins.any") and len(args) == 1:
+            # all(...) / any(...) over a literal collection of conditions: the short-circuit chain it stands for
+            a0 = self.force(args[0], frame, node)
+            items = self.as_items(a0, frame, node)
+            if items is None and isinstance(a0, ListV) and a0.kind == "lazy":
+                items = None
+            if items is not None:
+                want = d.endswith("all")
+                for x in items:
+                    t = self.truth(x, frame, node)
+                    if t != want:
+                        return BoolV(not want)
+                return BoolV(want)
+            return BoolV(None, (d[9:], key_str(val_key(a0))))
         if d == "builtins.dict":
             items = {}
             if args:
